@@ -1,6 +1,7 @@
 //! The registry: concrete types every generic property is instantiated at.
 //! `for_all_types!(f, cx)` expands to `f::<T>(cx, "T")` for each of them.
 pub use crate::universe::*;
+#[cfg(not(feature = "no-opt"))]
 pub use bitvec::prelude::{BitVec, Lsb0, Msb0};
 pub use parity_scale_codec::{Compact, OptionBool};
 pub use std::collections::{BTreeMap, BTreeSet, BinaryHeap, LinkedList, VecDeque};
@@ -49,11 +50,6 @@ macro_rules! for_all_types {
 			Vec<Rc<u8>>, Option<Arc<Vec<u8>>>,
 			// ranges
 			Range<u8>, Range<u32>, Range<Compact<u32>>, RangeInclusive<u16>,
-			// bit sequences
-			BitVec<u8, Lsb0>, BitVec<u8, Msb0>, BitVec<u16, Lsb0>, BitVec<u16, Msb0>, BitVec<u32, Lsb0>, BitVec<u32, Msb0>, BitVec<u64, Lsb0>, BitVec<u64, Msb0>,
-			Vec<BitVec<u8, Msb0>>, Option<BitVec<u16, Lsb0>>, (BitVec<u8, Lsb0>, u8),
-			// byte buffer
-			bytes::Bytes, Vec<bytes::Bytes>, (bytes::Bytes, u8), Option<bytes::Bytes>,
 			// derived
 			S1, S2, UnitS, Nt, Cp, Sk, E1, Disc, G<u8>, G<Vec<u16>>, G<Option<Box<u8>>>, Tr, Box<Tr>, Vec<Tr>, Option<E1>, (E1, Disc), Box<E1>, Vec<Disc>, [Disc; 3], Vec<Cp>, Vec<Sk>,
 			BTreeMap<u8, E1>, Result<E1, S2>,
@@ -61,7 +57,27 @@ macro_rules! for_all_types {
 			Vec<Vec<Vec<Vec<u8>>>>, Vec<Box<Vec<Box<u8>>>>, Vec<BTreeMap<u8, Vec<u8>>>, BTreeMap<u8, Vec<BTreeSet<u8>>>, LinkedList<VecDeque<Vec<u16>>>,
 			Option<Vec<Option<Vec<Option<u8>>>>>, Box<Vec<Box<Vec<Box<u8>>>>>, (Vec<Vec<u8>>, Box<Vec<u8>>, BTreeSet<u8>)
 		);
+		$crate::for_optional_types!($f, $cx);
 	};
+}
+/// types that need the optional integrations (bit-vec, bytes)
+#[cfg(not(feature = "no-opt"))]
+#[macro_export]
+macro_rules! for_optional_types {
+	($f:ident, $cx:expr) => {
+		$crate::for_types!($f, $cx;
+			// bit sequences
+			BitVec<u8, Lsb0>, BitVec<u8, Msb0>, BitVec<u16, Lsb0>, BitVec<u16, Msb0>, BitVec<u32, Lsb0>, BitVec<u32, Msb0>, BitVec<u64, Lsb0>, BitVec<u64, Msb0>,
+			Vec<BitVec<u8, Msb0>>, Option<BitVec<u16, Lsb0>>, (BitVec<u8, Lsb0>, u8),
+			// byte buffer
+			bytes::Bytes, Vec<bytes::Bytes>, (bytes::Bytes, u8), Option<bytes::Bytes>
+		);
+	};
+}
+#[cfg(feature = "no-opt")]
+#[macro_export]
+macro_rules! for_optional_types {
+	($f:ident, $cx:expr) => {};
 }
 #[macro_export]
 macro_rules! for_types {
